@@ -21,6 +21,8 @@ def generate(rng, tier):
         lines, objs, mapping_of = gen_disp.gen_universe(rng, max_classes=3, max_objs=5, mixins=False)
         lines += gen_disp.gen_reactions(rng, objs, mapping_of, ['drop', 'drop', 'remove', 'dispatch', 'add'],
                                         p=0.4, raise_p=0.05)
+        if rng.random() < 0.3:
+            lines.append(f'decoy {rng.randint(0, 999)}')      # a second dispatcher in the same process
         for o in objs:
             if rng.random() < 0.85:
                 lines.append(f'op add {o}')
